@@ -9,6 +9,7 @@ from __future__ import annotations
 import dataclasses
 import itertools
 import math
+from typing import ClassVar  # module level: string annotations are resolved in the module namespace
 
 import numpy as np
 
@@ -195,6 +196,66 @@ def _run_nondc(case):
             pass
         except Exception as e:
             viols.append(violation("discrete-accept-iff", "construct", "EXC:" + type(e).__name__, f"{label}: raised {type(e).__name__}: {e}"))
+    # dataclasses with pseudo-fields / inheritance: only real fields (dataclasses.fields) are categories
+    @dataclasses.dataclass
+    class WithClassVarInt:
+        bad: int = 0
+        good: int = 1
+        n_categories: ClassVar[int] = 2
+
+    @dataclasses.dataclass
+    class WithClassVarStr:
+        label: ClassVar[str] = "health"
+        bad: int = 0
+        good: int = 1
+
+    @dataclasses.dataclass
+    class WithInitVar:
+        low: int = 0
+        high: int = 1
+        scale: dataclasses.InitVar[int] = 2
+
+    @dataclasses.dataclass
+    class Base2:
+        a: int = 0
+        b: int = 1
+
+    @dataclasses.dataclass
+    class Inherited(Base2):
+        c: int = 2
+
+    @dataclasses.dataclass
+    class InheritedGap(Base2):
+        c: int = 3
+
+    @dataclasses.dataclass(frozen=True)
+    class Frozen:
+        x: int = 0
+        y: int = 1
+
+    for label, cls, want, codes in (
+        ("ClassVar[int] constant next to fields 0,1", WithClassVarInt, True, [0, 1]),
+        ("ClassVar[str] constant before fields 0,1", WithClassVarStr, True, [0, 1]),
+        ("InitVar pseudo-field after fields 0,1", WithInitVar, True, [0, 1]),
+        ("inherited dataclass 0,1,2", Inherited, True, [0, 1, 2]),
+        ("inherited dataclass 0,1,3", InheritedGap, False, None),
+        ("frozen dataclass 0,1", Frozen, True, [0, 1]),
+    ):
+        cnt += 1
+        try:
+            g = DiscreteGrid(cls)
+            ok = True
+        except GridInitializationError:
+            ok = False
+        except Exception as e:
+            viols.append(violation("discrete-accept-iff", "construct", "EXC:" + type(e).__name__, f"{label}: raised {type(e).__name__}: {e}"))
+            continue
+        if ok != want:
+            viols.append(violation("discrete-accept-iff", "construct", "VALUE", f"{label}: accepted={ok}, expected accepted={want}"))
+        elif ok:
+            arr = np.asarray(g.to_jax()).astype(np.float64).tolist()
+            if arr != [float(c) for c in codes] or len(g.categories) != len(codes):
+                viols.append(violation("discrete-array-form", "to_jax", "VALUE", f"{label}: array form {arr}, categories {g.categories}; expected codes {codes}"))
     return outcome(status="violation" if viols else "ok", violations=viols[:1], states=cnt, transitions=cnt, traces=0, digest=digest("nondc", cnt))
 
 
